@@ -11,10 +11,10 @@ trap 'rm -rf $out' EXIT
 cp -f /repo/go.sum go.sum
 go build -cover -coverpkg=./...,github.com/peterstace/simplefeatures/... -tags verif -o $out/bin/verif ./cmd/verif || exit 2
 for id in C01 C02 C03 C04 C05 C06 C07 C08 C09 C11 C12 C13 C14 C15 C16 C17 C18 C19 C20; do
-  GOCOVERDIR=$out/cov VERIF_OUT=$out $out/bin/verif $id $tier 2>&1 | head -1 | cut -c1-120
+  GOCOVERDIR=$out/cov VERIF_OUT=$out $out/bin/verif $id $tier > $out/log.txt 2>&1; head -1 $out/log.txt | cut -c1-120
 done
 # C10's purity part runs in the same binary (the race and explorer binaries are not instrumented)
-GOCOVERDIR=$out/cov VERIF_OUT=$out VERIF_C10_PURITY_ONLY=1 $out/bin/verif C10 $tier 2>&1 | head -1 | cut -c1-120
+GOCOVERDIR=$out/cov VERIF_OUT=$out $out/bin/verif C10 $tier > $out/log.txt 2>&1; head -1 $out/log.txt | cut -c1-120
 go tool covdata textfmt -i=$out/cov -o $out/cover.txt
 grep -E "^mode|peterstace/simplefeatures/(geom|rtree|carto)/" $out/cover.txt > $out/lib.txt; go tool cover -func=$out/lib.txt > /verif/.work/coverage_func.txt
 grep -v "100.0%" /verif/.work/coverage_func.txt | awk '$NF=="0.0%"' | grep -v "_test.go" > /verif/.work/coverage_zero.txt
